@@ -27,6 +27,7 @@ func genKeepAlive(t *rapid.T) kaCase {
 	sc.Cfg = gwgen.Cfg(t)
 	sc.Cfg.RetryDelayMs = 10000
 	sc.Auto = gwsim.Auto{Connack: gwgen.U8(0), BrokerAcks: true, ClientRegack: true, ClientAcks: true, BrokerPubrel: true, Suback: "grant"}
+	maybeEager(t, sc)
 	K := int64(c.K) * 1000
 	add := func(s ...gwsim.Step) { sc.Steps = append(sc.Steps, s...) }
 	add(connectSteps(sc.Cfg, "cl", uint16(c.K))...)
@@ -271,6 +272,7 @@ func genVanish(t *rapid.T) vanishCase {
 	sc.Cfg = gwgen.Cfg(t)
 	sc.Cfg.RetryDelayMs = rapid.SampledFrom([]int{1000, 10000}).Draw(t, "retry")
 	sc.Auto = gwsim.Auto{Connack: gwgen.U8(0), BrokerAcks: true, ClientRegack: true, ClientAcks: true, BrokerPubrel: true, Suback: "grant"}
+	maybeEager(t, sc)
 	sc.EnforceKeepAlive = true
 	sc.ConnectWaitMs = 5000
 	K := int64(c.K) * 1000
